@@ -531,7 +531,52 @@ def c12(tier, seed):
     return out
 
 
+# ------------------------------------------------------------------------------------------------
+# C13
+# ------------------------------------------------------------------------------------------------
+
+def c13(tier, seed):
+    out = []
+    out.append(plain("verif_c13", "c13.rs", "c13_ecube_value_ops", n=32, fam="Ecube", unwind=34,
+                     covers={"reached": "SATISFIED", "values differ": "SATISFIED", "all 32 variables": "SATISFIED"},
+                     what="Ecube over all 32 variables: value(m) == parity(vars & m) ^ xnor; ^ (4 forms) and ! (2 forms) denote XOR / complement; is_zero/is_one/num_lits/num_gates"))
+    out.append(plain("verif_c13", "c13.rs", "c13_ecube_eq_semantic", n=32, fam="Ecube", unwind=34,
+                     covers={"reached": "SATISFIED", "equal": "SATISFIED", "differ by a variable": "SATISFIED"},
+                     what="Ecube equality is semantic: == implies equal value on a symbolic assignment, != implies a Skolem assignment distinguishes"))
+    out.append(plain("verif_c13", "c13.rs", "c13_ecube_constructors", n=32, fam="Ecube", unwind=34,
+                     covers={"reached": "SATISFIED", "repeated variable in from_vars": "SATISFIED"},
+                     what="Ecube nth_var / nth_var_inv / one / zero / from_vars(<=3 symbolic variables, xnor) by definition"))
+    for n in range(0, 5):
+        out.append(spec("verif_c13", "c13.rs", "c13_ecube_all", "c13_ecube_all_%d" % n, [n], (1 << (n + 1)) + 3,
+                        tier="quick" if n <= 2 else "thorough", n=n, fam="Ecube", timeout=3000, mem=3 if n >= 3 else 1,
+                        optional=(n >= 3),
+                        covers={"reached": "SATISFIED", "term inside the enumeration": "SATISFIED", "term outside the enumeration": "SATISFIED"},
+                        what="Ecube::all(%d): a symbolic term (over variables < 6) occurs exactly once iff its variables are < n; exactly 2^(n+1) items" % n))
+    kinds = "01v!"
+    pats_q = [(6, "v!v1"), (6, "vv!!"), (5, "!v0v"), (4, "vvvv"), (4, "0!v0"), (3, "1v!0"), (2, "0000"), (2, "!!vv"), (1, "v!01"), (0, "0110")]
+    pats_t = [(7, "v!v!"), (8, "vv!1"), (6, "0v!0"), (5, "!!!!"), (3, "v0v0"), (0, "0000"), (0, "1111")]
+    for (n, pat) in pats_q + pats_t:
+        ks = [kinds.index(c) for c in pat]
+        q = (n, pat) in pats_q
+        name = "c13_soes_n%d_%s" % (n, pat.replace("!", "i"))
+        can_true = any(k != 0 for k in ks)
+        can_false = all(k != 1 for k in ks) and not (n >= 1 and any(ks[a] == 2 and ks[b] == 3 for a in range(4) for b in range(4)) and False)
+        out.append(spec("verif_c13", "c13.rs", "c13_soes", name, [n] + ks,
+                        (1 << n) + 3, tier="quick" if q else "thorough", n=n, fam="Soes", timeout=2400,
+                        mem=2 if n >= 6 else 1,
+                        covers={"reached": "SATISFIED", "evaluates to true": "SATISFIED" if can_true else "UNSAT",
+                                "evaluates to false": "SATISFIED" if can_false else "UNSAT"},
+                        what="Soes n=%d, operands of kinds %s (0 zero, 1 one, v = x_i, ! = !x_i with symbolic i): value == OR of terms, | (4 reference forms) denotes OR, Lut::from tabulates the same function (well-formed), is_zero/is_one only for the respective constant" % (n, pat)))
+    for n in (3, 5):
+        out.append(spec("verif_c13", "c13.rs", "c13_soes_general", "c13_soes_general_%d" % n, [n], 36,
+                        tier="thorough", n=n, fam="Soes", timeout=3000, mem=8, mem_limit_gb=30, optional=True,
+                        covers={"reached": "SATISFIED", "multi-variable term": "SATISFIED"},
+                        what="Soes::from_cubes with ONE general symbolic term over n=%d variables: value, tabulation, is_zero/is_one" % n))
+    return out
+
+
 PROPS = {
+    "C13": c13,
     "C12": c12,
     "C10": c10,
     "C09": c09,
